@@ -8,7 +8,7 @@ import itertools
 from typing import Any, Optional
 
 from mc import families
-from mc.common import Ctx, InternalError, pmap, rotate
+from mc.common import Ctx, InternalError, pmap, rotate, tag, pmap_tagged
 from mc.fd import AdmissionCounter, Budget, ParsingMode, Timeout, build, has_helper_symbols, snap, time_limit
 from mc.refgrammar import Alt, NT, Lit, RefGrammar, Seq, TreeChecker, WordMatcher, member, snap_text, words
 
@@ -224,7 +224,11 @@ def sweep(ctx: Ctx, which: set) -> dict:
     items = grammar_items(ctx.tier)
     items = rotate(items, ctx.seed)
     ctx.log(f"parser sweep over {len(items)} grammars for {sorted(which)}")
-    results = pmap(work, [it + (which,) for it in items], chunk=2)
+    tasks = [it + (which,) for it in items]
+    results = pmap_tagged(work, tasks, chunk=2)
+    for t, r in zip(tasks, results):
+        for _, case in r.get("viol", []):
+            tag(case, "mc.parser_sweep", "work", t)
     agg = {"grammars": len(results), "words": 0, "members": 0, "pref_members": 0, "trees": 0, "max_adm": 0,
            "budget_hits": 0, "spec_errors": 0, "skipped_words": 0, "forest_caps": 0, "nonmember_words": 0,
            "ambiguous_words": 0, "errors": {}}
